@@ -170,30 +170,56 @@ def same_value(a, b):
     return a == b
 
 
-def description_witness(kind):
+DESCRIPTION_KINDS = ["dict", "creator", "library", "dict_equals_name", "creator_equals_name", "dict_class_name",
+                     "dict_empty", "dict_absent", "creator_equals_level_label"]
+
+
+def description_witness(kind, description="where they live", name="city"):
+    """a comparison description through construction, save, reload and second save.  Boundary kinds: the
+    description equals the output column name, equals the creator's class name, is empty, is absent."""
     import splink.comparison_level_library as cll
     import splink.comparison_library as cl
     levels = [{"sql_condition": "city_l IS NULL OR city_r IS NULL", "label_for_charts": "null", "is_null_level": True},
               {"sql_condition": "city_l = city_r", "label_for_charts": "exact"},
               {"sql_condition": "ELSE", "label_for_charts": "else"}]
+    creators = lambda: [cll.NullLevel("city"), cll.ExactMatchLevel("city"), cll.ElseLevel()]   # noqa: E731
+    want = description
     if kind == "dict":
-        comp = {"output_column_name": "city", "comparison_description": "where they live", "comparison_levels": levels}
-        want = "where they live"
+        comp = {"output_column_name": name, "comparison_description": description, "comparison_levels": levels}
     elif kind == "creator":
-        comp = cl.CustomComparison(output_column_name="city", comparison_description="where they live",
-                                   comparison_levels=[cll.NullLevel("city"), cll.ExactMatchLevel("city"), cll.ElseLevel()])
-        want = "where they live"
+        comp = cl.CustomComparison(output_column_name=name, comparison_description=description, comparison_levels=creators())
+    elif kind == "library":
+        comp, want = cl.ExactMatch("city"), None     # whatever the in-memory model says must survive the reload
+    elif kind == "dict_equals_name":
+        comp, want = {"output_column_name": name, "comparison_description": name, "comparison_levels": levels}, name
+    elif kind == "creator_equals_name":
+        comp = cl.CustomComparison(output_column_name=name, comparison_description=name, comparison_levels=creators())
+        want = name
+    elif kind == "dict_class_name":
+        comp = {"output_column_name": name, "comparison_description": "CustomComparison", "comparison_levels": levels}
+        want = "CustomComparison"
+    elif kind == "creator_equals_level_label":
+        comp = cl.CustomComparison(output_column_name=name, comparison_description="Exact match on city", comparison_levels=creators())
+        want = "Exact match on city"
+    elif kind == "dict_empty":
+        # an empty description is "no description": what the in-memory model shows instead must survive
+        comp, want = {"output_column_name": name, "comparison_description": "", "comparison_levels": levels}, None
+    elif kind == "dict_absent":
+        comp, want = {"output_column_name": name, "comparison_levels": levels}, None
     else:
-        comp = cl.ExactMatch("city")
-        want = None          # whatever the in-memory model says must survive the reload
+        raise ValueError(kind)
     tabs, lk = tiny_linker([comp])
-    got = {"supplied": want, "in_memory": lk._settings_obj.comparisons[0].comparison_description}
+    got = {"supplied": want, "in_memory": lk._settings_obj.comparisons[0].comparison_description,
+           "output_column_name": lk._settings_obj.comparisons[0].output_column_name}
     d1, d1_text, lk2 = save_and_reload(lk, tabs, "duckdb")
-    got["json"] = d1_text["comparisons"][0].get("comparison_description")
+    got["json"] = d1_text["comparisons"][0].get("comparison_description", "<absent>")
     got["reloaded"] = lk2._settings_obj.comparisons[0].comparison_description
-    got["second_generation_json"] = lk2.misc.save_model_to_json()["comparisons"][0].get("comparison_description")
+    d2 = lk2.misc.save_model_to_json()
+    got["second_generation_json"] = d2["comparisons"][0].get("comparison_description", "<absent>")
+    got["second_generation_equal"] = json.loads(json.dumps(d2["comparisons"][0])) == d1_text["comparisons"][0]
     want = got["in_memory"] if want is None else want
-    ok = all(got[k] == want for k in ("in_memory", "json", "reloaded", "second_generation_json"))
+    ok = got["in_memory"] == want and got["reloaded"] == want and got["second_generation_equal"] \
+        and got["json"] in (want, "<absent>") and got["second_generation_json"] == got["json"]
     return ok, got
 
 
@@ -299,7 +325,7 @@ def run_witnesses(ctx: Ctx):
                 {"case": {"level": lvl}, "implementation": got,
                  "specification": f"{field} == {value!r} in the in-memory model, the JSON and the reloaded model"},
                 {"field": field, "value": value})
-    for kind in ("dict", "creator", "library"):
+    for kind in DESCRIPTION_KINDS:
         try:
             ok, got = description_witness(kind)
         except Exception as e:
@@ -316,6 +342,8 @@ def run_witnesses(ctx: Ctx):
                  "specification": "the description of the in-memory comparison (the supplied one when given) is in the JSON, "
                                   "in the reloaded model and in the second-generation JSON"},
                 {"field": "comparison_description", "creator": "CustomComparison", "route": kind})
+    for k3 in ("dict", "creator", "library"):      # flags used by the generator
+        flags.setdefault("description_" + k3, False)
     for hi, hist in enumerate(TRAINED_HISTORIES):
         for fixed in (True, False):
             name = ("fixed:" if fixed else "free:") + ",".join(op for op, _ in hist)
@@ -372,19 +400,42 @@ def oracle_level(p, k, sg, kinds):
 
 
 def oracle_comparison(p, k, sg, kinds):
-    want = "zq description" if k == "comparison_description" else "zq_name"
+    """Concretise a failing class assignment of a comparison pipeline.  The symbolic classes only say
+    "a literal of the tables" or "some other value"; a guard that compares the field with ANOTHER field or
+    with a derived default is opaque to them, so the candidates also cover the relational boundary cases:
+    the field equal to the other field of the record, to the creator's class name, to a level label."""
     levels = [{"sql_condition": "city_l IS NULL OR city_r IS NULL", "label_for_charts": "null", "is_null_level": True},
               {"sql_condition": "city_l = city_r", "label_for_charts": "exact"},
               {"sql_condition": "ELSE", "label_for_charts": "else"}]
-    comp = {"output_column_name": "city", "comparison_description": "d", "comparison_levels": levels}
-    comp[k] = want
-    tabs, lk = tiny_linker([comp])
-    got = {"supplied": want, "in_memory": getattr(lk._settings_obj.comparisons[0], k)}
-    d1, d1_text, lk2 = save_and_reload(lk, tabs, "duckdb")
-    got["json"] = d1_text["comparisons"][0].get(k)
-    got["reloaded"] = getattr(lk2._settings_obj.comparisons[0], k)
-    bad = any(got[x] != want for x in ("in_memory", "json", "reloaded"))
-    return bad, got, comp
+    other = "output_column_name" if k == "comparison_description" else "comparison_description"
+    base = {"output_column_name": "city", "comparison_description": "d"}
+    cls = sg.get(k, ("G",))
+    cands = []
+    if cls[0] == "C" and isinstance(cls[1], str) and cls[1]:
+        cands.append(("literal of the tables", cls[1]))
+    cands += [("distinct value", "zq description" if k == "comparison_description" else "zq_name"),
+              (f"equal to {other}", base[other]), ("creator class name", "CustomComparison"),
+              ("a level label", "exact")]
+    last = None
+    for relation, want in cands:
+        comp = {**base, "comparison_levels": levels}
+        comp[k] = want
+        try:
+            tabs, lk = tiny_linker([comp])
+            got = {"relation": relation, "supplied": want, "in_memory": getattr(lk._settings_obj.comparisons[0], k)}
+            d1, d1_text, lk2 = save_and_reload(lk, tabs, "duckdb")
+            got["json"] = d1_text["comparisons"][0].get(k, "<absent>")
+            got["reloaded"] = getattr(lk2._settings_obj.comparisons[0], k)
+            d2 = json.loads(json.dumps(lk2.misc.save_model_to_json()))
+            got["second_generation_equal"] = d2["comparisons"][0] == d1_text["comparisons"][0]
+        except Exception as e:
+            got = {"relation": relation, "supplied": want, "exception": repr(e)[:300]}
+            return True, got, comp
+        bad = got["in_memory"] != want or got["reloaded"] != want or not got["second_generation_equal"]
+        last = (bad, got, comp)
+        if bad:
+            return last
+    return last
 
 
 SETTINGS_SAMPLES = {
@@ -575,7 +626,8 @@ def gen_comparison(rng, col, backend_portable, flags, as_dict_route):
                 "comparison_levels": [{"sql_condition": f"{col}_l IS NULL OR {col}_r IS NULL",
                                        "label_for_charts": "null", "is_null_level": True}, exact, fuzzy, other]}
         if flags.get("description_dict") and rng.random() < 0.6:
-            comp["comparison_description"] = rng.choice(["how " + col + " compares", "x", "Exact match"])
+            comp["comparison_description"] = rng.choice(["how " + col + " compares", "x", "Exact match",
+                                                         comp["output_column_name"], "CustomComparison"])
             meta["description"] = True
         return comp, meta
     # custom comparison from level creators
@@ -585,7 +637,7 @@ def gen_comparison(rng, col, backend_portable, flags, as_dict_route):
           cll.ElseLevel()]
     kw = {}
     if flags.get("description_creator") and rng.random() < 0.6:
-        kw["comparison_description"] = "custom " + col
+        kw["comparison_description"] = rng.choice(["custom " + col, col])
         meta["description"] = True
     return cl.CustomComparison(output_column_name=col, comparison_levels=lv, **kw), meta
 
@@ -680,6 +732,8 @@ def apply_training(lk, op, arg):
 
 # ------------------------------------------------------------------------- Coq side of X
 def rec_to_coq(rec: dict) -> str:
+    if not rec:
+        return "(@nil (string * val))"
     return "[" + "; ".join(f"({coq_str(k)}, {py_to_val(v)})" for k, v in rec.items()) + "]"
 
 
@@ -793,7 +847,7 @@ def correspondence(ctx: Ctx, pipelines, flags):
     n_pred_cmp = 0
     for ci, (backend, portable, other) in enumerate(plan):
         case = gen_model(ctx.rng, flags, backend, portable)
-        descr_ok = all(flags.get(k) for k in ("description_dict", "description_creator", "description_library"))
+        descr_ok = all(v for k, v in flags.items() if k.startswith("description_"))
         info = {"case": ci, "backend": backend, "other_backend": other, "link_type": case["link_type"], "route": case["route"],
                 "comparisons": case["metas"], "history": case["history"], "options": case["opts"]}
         try:
